@@ -17,6 +17,7 @@ pub mod c11;
 pub mod c12;
 pub mod c13;
 pub mod c14;
+pub mod c15;
 pub mod c16;
 pub mod c17;
 pub mod c18;
@@ -202,6 +203,20 @@ pub fn all() -> Vec<PropDef> {
             ],
             run: c14::run,
             replay: c14::replay,
+            child: None,
+        },
+        PropDef {
+            id: "C15",
+            level: "fault_enumeration",
+            rule: c15::RULE,
+            assumptions: &[
+                "a 10 s watchdog stands for 'the callback ran' / 'the handler observed cancellation'",
+                "embedder cancellation is exercised through serve_connection_with_cancel only (the accept loops own their token)",
+                "a client holding an unread backlog eventually reads or disconnects; the connection future is only required to return after that",
+                "the parked handlers poll cancellation (cooperative); an uncooperative handler's blocking thread is outside what the property promises",
+            ],
+            run: c15::run,
+            replay: c15::replay,
             child: None,
         },
         PropDef {
